@@ -242,11 +242,14 @@ func (e *httpEnv) run(raw json.RawMessage) (HTTPOut, error) {
 // directedRequests: requests that make progress before they fail — a valid element / posting /
 // statement first, then the invalid one — so that "no effect" is not vacuous: the work already
 // done must be rolled back and its events dropped.
-func directedRequests() []json.RawMessage {
-	mk := func(name, route, method, path, query, body string) json.RawMessage {
+func directedRequests(round string) []json.RawMessage {
+	mkx := func(name, route, method, path, query, body, expect string) json.RawMessage {
 		b, _ := json.Marshal(map[string]any{"route": route, "method": method, "path": path, "query": query, "body": body,
-			"headers": map[string]string{"Content-Type": "application/json"}, "mut": "directed:" + name, "expect": "4xx"})
+			"headers": map[string]string{"Content-Type": "application/json"}, "mut": "directed:" + name, "expect": expect})
 		return b
+	}
+	mk := func(name, route, method, path, query, body string) json.RawMessage {
+		return mkx(name, route, method, path, query, body, "4xx")
 	}
 	okTx := `{"action":"CREATE_TRANSACTION","data":{"postings":[{"source":"world","destination":"bank","amount":5,"asset":"USD/2"}],"metadata":{"d":"1"}}}`
 	okMeta := `{"action":"ADD_METADATA","data":{"targetType":"ACCOUNT","targetId":"users:001","metadata":{"directed":"x"}}}`
@@ -266,6 +269,26 @@ func directedRequests() []json.RawMessage {
 			mk("v1-batch:ok+overdraft", "v1 POST /{ledger}/transactions/batch", "POST", "/"+l+"/transactions/batch", "",
 				`{"transactions":[{"postings":[{"source":"world","destination":"bank","amount":1,"asset":"EUR"}]},{"postings":[{"source":"users:002","destination":"bank","amount":999999,"asset":"EUR"}]}]}`),
 		)
+		// C14 through the APIs: a reference used by a v1 postings-form create is refused (409 CONFLICT) to every
+		// later create that reuses it — v1 postings form, v1 script form, v2, bulk element
+		v1 := "v1 POST /{ledger}/transactions"
+		for i, form := range []string{"v1p", "v1s", "v2", "bulk"} {
+			ref := fmt.Sprintf("dir-%s-%s-%d", round, form, i)
+			first := fmt.Sprintf(`{"postings":[{"source":"world","destination":"bank","amount":%d,"asset":"EUR"}],"reference":%q}`, 3+i, ref)
+			ret = append(ret, mkx("v1-reference:first:"+form, v1, "POST", "/"+l+"/transactions", "", first, "2xx"))
+			switch form {
+			case "v1p":
+				ret = append(ret, mkx("v1-reference:reuse:v1-postings", v1, "POST", "/"+l+"/transactions", "", first, "409"))
+			case "v1s":
+				ret = append(ret, mkx("v1-reference:reuse:v1-script", v1, "POST", "/"+l+"/transactions", "",
+					fmt.Sprintf(`{"script":{"plain":"send [EUR 1] (\n source = @world\n destination = @bank\n)"},"reference":%q}`, ref), "409"))
+			case "v2":
+				ret = append(ret, mkx("v1-reference:reuse:v2", "v2 POST /{ledger}/transactions", "POST", "/v2/"+l+"/transactions", "", first, "409"))
+			case "bulk":
+				ret = append(ret, mkx("v1-reference:reuse:bulk", bulk, "POST", "/v2/"+l+"/_bulk", "atomic=true",
+					fmt.Sprintf(`[{"action":"CREATE_TRANSACTION","data":%s}]`, first), "4xx"))
+			}
+		}
 	}
 	return ret
 }
@@ -288,14 +311,15 @@ func init() {
 				return nil, err
 			}
 			// the directed requests run twice: on the fresh ledgers and after the mutated traffic
-			all := append(directedRequests(), ins...)
-			return append(all, directedRequests()...), nil
+			all := append(directedRequests("a"), ins...)
+			return append(all, directedRequests("b")...), nil
 		}()
 		if err != nil {
 			return err
 		}
 		for _, raw := range ins {
-			if theHTTPEnv == nil || theHTTPEnv.n >= 400 {
+			// (a fresh LeanPG every 400 requests, never in the middle of the directed requests: some are pairs)
+			if theHTTPEnv == nil || (theHTTPEnv.n >= 400 && !bytes.Contains(raw, []byte(`"mut":"directed:`))) {
 				if theHTTPEnv != nil {
 					theHTTPEnv.b.Close()
 				}
